@@ -91,9 +91,15 @@ class ConnModel(object):
         self._dac = False
 
     # ------------------------------------------------------------------ helpers
+    # kinds that do not depend on the reference's prediction of the server stream: reported even after the
+    # prediction has been given up (don't-care input, injected fault)
+    STRUCTURAL = frozenset(['grammar', 'event-after-terminal', 'app-exception', 'graceful-flag', 'second-close', 'data-after-close',
+                            'send-raised-but-wrote', 'wire-invalid-frame', 'wire-garbage', 'close-raised', 'app-frame-invalid'])
+
     def problem(self, kind, msg):
-        if self.dontcare is None:
-            self.problems.append((kind, msg))
+        if self.dontcare is None or kind in self.STRUCTURAL:
+            if (kind, msg) not in self.problems:
+                self.problems.append((kind, msg))
 
     @property
     def is_open(self):
@@ -132,7 +138,13 @@ class ConnModel(object):
         self.check_wire(world)
         menu = self.enabled_server_steps()
         if self.depth is not None and self.steps >= self.depth:
-            menu = ['eof']
+            # Past the depth bound the server normally hangs up.  With 'silent_tail' it stays silent instead once a closing
+            # handshake has been started by either side: the client's close time-out must then end the connection by itself.
+            if self.cfg.get('silent_tail') and self.hs == 'done' and (self.client_close == 'sent' or self.server_close is not None) and not self.transport_down:
+                menu = ['silence']
+                self.sites.add('silent-tail')
+            else:
+                menu = ['eof']
         if 'eof' in menu:
             menu = ['eof'] + [m for m in menu if m != 'eof']      # choice 0 = EOF (the run ends)
         h = None
